@@ -32,6 +32,18 @@ CLAIMED["C03"] = dict(
     technique="Kani harness contracts: representation invariant + abstract view per operation from an arbitrary state (inductive), enumerated histories with symbolic contents for the header block",
 )
 
+CLAIMED["C01"] = dict(
+    category="model_checking",
+    text="Bounded. Per-step matching contracts on the real router code: split_next_section (attribute contract, proof_for_contract), Pattern::take_through for Static "
+         "(matches iff the identical whole segment(s), not a byte prefix) and Param (non-empty segment, exactly that segment pushed as param), Path::init_with_request_bytes "
+         "(one trailing slash ignored), each for all byte strings up to 8 bytes; and Node::search_target on three concrete final trees (static+param siblings, a compressed chain, "
+         "two nested params with a static alternative) for EVERY request path up to 8 bytes against the segment-wise reference (target node, hit/miss, captured params).",
+    design_ref="DESIGN.md §4 C01",
+    note="Bounded by path length 8 and by the three tree shapes. Not under contract: registration (base.rs), From<base::Node> (compression, child sort), merge of nested Ohkamis, "
+         "Router::handle's HEAD branch, paths with empty segments (safety only). A genuine defect found by these obligations was repaired (fix: 1cbecf7).",
+    technique="Kani function contract (proof_for_contract) + harness contracts over symbolic byte strings; concrete trees with symbolic request paths",
+)
+
 NOT_APPLICABLE = {
 }
 
